@@ -5,4 +5,4 @@ Require Import ExtrOcamlBasic.
 From OFGA Require Import Check.V1 Check.V1Weight2 Check.V1Recursive Check.V1FastPathSource.
 Extraction Language OCaml.
 Extraction "c02_model.ml" lfp atomval stratified check_top valid_for_read final_levels
-  fp_union_c fp_inter_c fp_diff_c weight2 rec_check bfs rec_fast ssortedb lvals rvals intersects left_ok right_ok source_impl.
+  fp_union_c fp_inter_c fp_diff_c weight2 rec_check bfs rec_fast ssortedb lvals rvals intersects left_ok right_ok source_impl cond_chunk.
